@@ -712,6 +712,9 @@ def plant_all(decls):
             m = copy.deepcopy(decls)
             m[i]["lo"], m[i]["hi"] = d["hi"], d["lo"]
             yield "P0004", "type-array-bounds", m, [str(d["hi"]), str(d["lo"])]
+            m2 = copy.deepcopy(m)
+            m2.insert(0, {"k": "array", "name": "ValidArrayOfSameElement", "lo": 1, "hi": 10, "elem": d["elem"]})
+            yield "P0004", "type-array-bounds-after-valid-array-of-same-element", m2, [str(d["hi"]), str(d["lo"])]
         if k == "enum":
             m = copy.deepcopy(decls)
             m[i]["values"].append(m[i]["values"][0])
@@ -788,6 +791,13 @@ def plant_all(decls):
                                                      v["type"])
                     m[i]["vars"][j]["init"] = None
                     yield "P0004", "%s:%s:var-array-bounds" % (k, pos), m, _re.findall(r"\d+", v["type"]) + [v["name"]]
+                    # ... and the same next to a valid array type with the same element type, declared before it
+                    elem_ = v["type"].split(" OF ", 1)[1] if " OF " in v["type"] else None
+                    if elem_:
+                        m2 = copy.deepcopy(m)
+                        m2.insert(0, {"k": "array", "name": "ValidArrayOfSameElement", "lo": 1, "hi": 10, "elem": elem_})
+                        yield "P0004", "%s:%s:var-array-bounds-after-valid-array-of-same-element" % (k, pos), m2, \
+                            _re.findall(r"\d+", v["type"]) + [v["name"]]
                 if v["kind"] == "elem" and v["class"] in ("VAR", "VAR_INPUT", "VAR_OUTPUT") and not v.get("at") \
                         and v["qual"] != "CONSTANT" and (j + 1 == len(d["vars"]) or
                                                          (d["vars"][j + 1]["class"], d["vars"][j + 1]["qual"]) !=
